@@ -10,7 +10,8 @@ sees (rejected sessions are closed, admitted sessions stay open, misbehaving pee
 import vlib
 import nodetrace
 
-C11_EVENTS = {"reject", "conn_add", "recv", "known_add", "known_del", "conn_del", "h_status", "established", "sess_end"}
+C11_EVENTS = {"reject", "conn_add", "recv", "known_add", "known_del", "conn_del", "h_status", "established", "sess_end",
+              "end_of_instance", "mk_update", "ru_self", "shutdown"}
 
 
 def run(tier, seed, replay=None):
@@ -28,7 +29,15 @@ def run(tier, seed, replay=None):
         raise vlib.Inconclusive("admit harness: " + "; ".join(res["inconclusive"][:3]))
     for viol in res["violations"]:
         v.violation(viol["sig"], viol["what"], viol["replay"])
-    nt = nodetrace.validate(wd, [hooks])
+    # two running nodes with one ID on real meshes
+    dhooks = wd + "/dup_hooks.ndjson"
+    dres = vlib.harness_json(vh, ["dupnode", "-scenarios", "6" if tier == "quick" else "40", "-seed", str(seed), "-hooktrace", dhooks],
+                             wd, timeout=3000, name="dupnode")
+    if dres.get("inconclusive"):
+        raise vlib.Inconclusive("dupnode harness: " + "; ".join(dres["inconclusive"][:3]))
+    for viol in dres["violations"]:
+        v.violation(viol["sig"], viol["what"], viol["replay"])
+    nt = nodetrace.validate(wd, [hooks, dhooks])
     for d in nt["diffs"]:
         if d["event"] in C11_EVENTS:
             v.violation("C11:%s:%s" % (d["event"], "+".join(d["what"])),
@@ -40,7 +49,8 @@ def run(tier, seed, replay=None):
     cov = {
         "states": r1.distinct + r2.distinct, "transitions": r1.generated + r2.generated,
         "traces_validated_against_impl": nt["instances"],
-        "evaluations": res["evaluations"], "distinct_nontrivial": res["distinct"],
+        "evaluations": res["evaluations"] + dres["evaluations"], "distinct_nontrivial": res["distinct"] + dres["distinct"],
+        "duplicate_node_scenarios": dres["evaluations"],
         "rule": "seeded scenarios: allow-list in {none,[pa,pb],[pb]} x per-node cost override x backend cost x 2-4 sessions announcing "
                 "ids from {'',self,pa,pb,pc} (NodeID field sometimes different from ForwardingNode) on two backends, some handshakes "
                 "concurrent, followed by list_ok / wrong cost / late init / drop us / forwarder changed / reject frame / close; "
@@ -51,5 +61,5 @@ def run(tier, seed, replay=None):
     }
     return v.finish("model_checking", cov, assumptions=[
         "the type-3 reject frame is best effort (the session is closed right after it is queued); only closure is demanded",
-        "the same-ID (duplicate node) clause is exercised by the mesh scenarios of the E2 engine",
+        "duplicate-node scenarios: lines of 2-4 real nodes, the two instances start in different wall-clock seconds and attach to different neighbours; 30 s ceiling",
     ])
